@@ -179,3 +179,49 @@ Proof.
   - intros Hc. apply in_app_or in Hc. destruct Hc as [Hc|Hc]; [contradiction|]. apply (Hd x); [left; reflexivity|assumption].
   - apply IH; [assumption|assumption|]. intros y Hy. apply Hd. right. assumption.
 Qed.
+
+(* ---- ovw without the "fits" restriction: the splice of Spec/FsSpec.v (overwrite and extend) ---- *)
+Lemma len_ovw_gen l i src : 0 <= i <= len l -> len (ovw l i src) = Z.max (len l) (i + len src).
+Proof.
+  intros Hi. unfold ovw, len in *. rewrite !app_length, firstn_length, skipn_length. lia.
+Qed.
+
+Lemma nthZ_ovw_gen l i src k : 0 <= i <= len l ->
+  nthZ (ovw l i src) k = if (i <=? k) && (k <? i + len src) then nthZ src (k - i) else nthZ l k.
+Proof.
+  intros Hi. unfold ovw.
+  assert (Hf : len (firstn (Z.to_nat i) l) = i) by (unfold len in *; rewrite firstn_length; lia).
+  destruct (Z.leb_spec i k) as [H1|H1]; simpl.
+  - rewrite nthZ_app_r by lia. rewrite Hf.
+    destruct (Z.ltb_spec k (i + len src)) as [H2|H2].
+    + apply nthZ_app_l. lia.
+    + rewrite nthZ_app_r by lia. pose proof (len_nonneg src). rewrite !nthZ_nth by lia. rewrite nth_skipn. f_equal. unfold len in *. lia.
+  - rewrite nthZ_app_l by lia. destruct (Z.ltb_spec k 0); [rewrite !nthZ_neg by lia; reflexivity|].
+    rewrite !nthZ_nth by lia. apply nth_firstn. lia.
+Qed.
+
+Lemma ovw_ovw l i a b : 0 <= i <= len l -> ovw (ovw l i a) (i + len a) b = ovw l i (a ++ b).
+Proof.
+  intros Hi. pose proof (len_nonneg a). pose proof (len_nonneg b).
+  assert (H1 : len (ovw l i a) = Z.max (len l) (i + len a)) by (apply len_ovw_gen; assumption).
+  apply list_ext.
+  - assert (H2 : len (ovw (ovw l i a) (i + len a) b) = len (ovw l i (a ++ b))).
+    { rewrite (len_ovw_gen (ovw l i a)) by lia. rewrite (len_ovw_gen l i (a ++ b)) by lia. rewrite H1, len_app. lia. }
+    unfold len in *. lia.
+  - intros k Hk. rewrite (nthZ_ovw_gen (ovw l i a)) by lia. rewrite (nthZ_ovw_gen l i (a ++ b)) by lia. rewrite (nthZ_ovw_gen l i a) by lia. rewrite len_app.
+    destruct (Z.leb_spec (i + len a) k); destruct (Z.ltb_spec k (i + len a + len b)); destruct (Z.leb_spec i k); destruct (Z.ltb_spec k (i + (len a + len b)));
+      destruct (Z.ltb_spec k (i + len a)); simpl; try lia; try reflexivity.
+    + rewrite nthZ_app_r by lia. f_equal. lia.
+    + rewrite nthZ_app_l by lia. reflexivity.
+Qed.
+
+Lemma ovw_nil l i : 0 <= i <= len l -> ovw l i [] = l.
+Proof. intros Hi. unfold ovw. simpl. rewrite Nat.add_0_r. apply firstn_skipn. Qed.
+
+Lemma len_firstn_le {A} (l : list A) n : 0 <= n -> len (firstn (Z.to_nat n) l) = Z.min n (len l).
+Proof. intros H. unfold len. rewrite firstn_length. lia. Qed.
+
+Lemma firstn_app_skipn {A} (l : list A) a b : firstn a l ++ firstn b (skipn a l) = firstn (a + b) l.
+Proof.
+  revert l. induction a as [|a IH]; intros l; simpl; [reflexivity|]. destruct l as [|x l]; simpl; [rewrite firstn_nil; reflexivity|]. f_equal. apply IH.
+Qed.
